@@ -8,7 +8,12 @@ from pathlib import Path
 ROOT = Path(__file__).resolve().parent.parent
 op = sys.argv[1]
 glob = sys.argv[2] if len(sys.argv) > 2 else '*.py'
-checks = os.environ.get('MUT_CHECKS', 'C01').split(',')
+checks_env = os.environ.get('MUT_CHECKS')
+FILE_CHECKS = {'code.py': ['C19'], 'fst_get_slice.py': ['C07', 'C01'], 'fst_put_slice.py': ['C01', 'C03'], 'slice_exprlike.py': ['C01', 'C04'],
+               'slice_stmtlike.py': ['C01', 'C04'], 'fst_misc.py': ['C01', 'C06'], 'fst_core.py': ['C01', 'C11'], 'fst_raw.py': ['C10'],
+               'fst.py': ['C01', 'C06'], 'fst_put_one.py': ['C01', 'C08'], 'astutil.py': ['C06', 'C14'], 'parsex.py': ['C05'],
+               'fst_traverse.py': ['C14', 'C15', 'C16'], 'match.py': ['C17', 'C18'], 'reconcile.py': ['C13'], 'fst_options.py': ['C20', 'C12'],
+               'view.py': ['C03'], 'fst_locs.py': ['C06'], 'fst_trivia.py': ['C04', 'C06']}
 SRC = Path('/repo/src/fst')
 out_path = Path('/verif/seeded') / f'mutants_{op}.json'
 results = json.loads(out_path.read_text()) if out_path.exists() else {}
@@ -64,7 +69,7 @@ for f in sorted(SRC.glob(glob)):
                 rec['suite'] = 'passes' if t.returncode == 0 else 'killed: ' + tail[:100]
             if rec['suite'] == 'passes':
                 rec['checks'] = {}
-                for ck in checks:
+                for ck in (checks_env.split(',') if checks_env else FILE_CHECKS.get(f.name, ['C01'])):
                     env = dict(os.environ, PFST_REPO=str(S), VERIF_EVIDENCE_DIR=str(S / 'evidence'))
                     (S / 'evidence').mkdir(exist_ok=True)
                     p = subprocess.run([str(ROOT / 'check'), ck], capture_output=True, text=True, env=env, cwd=ROOT)
